@@ -76,9 +76,9 @@ def emit_cases(ctx, ids, maxlen=3, langs=LANGS):
     return cases, r
 
 
-def emit_values(ctx, ids):
-    r = ctx.run_tlc("BuilderMC", "BuilderMC.cfg", workers=4, timeout=900,
-                    constants={"Mode": '"values"', "Ids": "{%s}" % ",".join(str(i) for i in ids)})
+def emit_values(ctx, ids, mode="values"):
+    r = ctx.run_tlc("BuilderMC", "BuilderMC.cfg", workers=4, timeout=1500,
+                    constants={"Mode": '"%s"' % mode, "Ids": "{%s}" % ",".join(str(i) for i in ids)})
     vals = collections.defaultdict(list)
     n = 0
     for v in core.tagged_lines(r["out"], "VALUE"):
@@ -402,6 +402,8 @@ def veneer_yaml(entry, pkg):
             builders.append("  - promote_options_to_constructor:\n      by_object: %s\n      options: [%s]\n" % (r["obj"], ", ".join(r["fields"])))
         elif r["k"] == "unfold":
             options.append("  - struct_fields_as_options:\n      by_name: %s.%s\n      fields: [%s]\n" % (r["obj"], r["field"], ", ".join(r["fields"])))
+        elif r["k"] == "args":
+            options.append("  - struct_fields_as_arguments:\n      by_name: %s.%s\n      fields: [%s]\n" % (r["obj"], r["field"], ", ".join(r["fields"])))
         elif r["k"] == "append":
             options.append("  - array_to_append:\n      by_name: %s.%s\n" % (r["obj"], r["field"]))
         elif r["k"] == "index":
@@ -820,11 +822,22 @@ def bind(entry, u, lang):
             hit = [o for o in irb["options"] if norm_name(o["name"]) == norm_name(so["name"])]
             if len(hit) != 1:
                 raise BindError("%s builder %s: %d options named %s" % (lang, key, len(hit), so["name"]))
-            io = hit[0]
-            if [a["path"] for a in io["asgs"]] != [a["path"] for a in so["asgs"]] or \
-                    [a["method"] for a in io["asgs"]] != [a["m"] for a in so["asgs"]] or len(io["args"]) != len(so["args"]):
+            io = dict(hit[0])
+            # same assignments (path, method), in any order (JSON Schema sorts properties, CUE keeps them)
+            if sorted((a["path"], a["method"]) for a in io["asgs"]) != sorted((a["path"], a["m"]) for a in so["asgs"]) or len(io["args"]) != len(so["args"]):
                 raise BindError("%s builder %s option %s: IR assignments %s differ from the derived %s" % (
                     lang, key, so["name"], [(a["path"], a["method"]) for a in io["asgs"]], [(a["path"], a["m"]) for a in so["asgs"]]))
+            # position of the specification's argument j in the generated signature
+            names = [a["name"] for a in io["args"]]
+            argpos = {}
+            for sa in so["asgs"]:
+                ia = [a for a in io["asgs"] if a["path"] == sa["path"]][0]
+                if ia["arg"] not in names or (sa["key"] and ia["key"] not in names):
+                    raise BindError("%s builder %s option %s: assignment %s is not fed by an argument" % (lang, key, so["name"], ia["path"]))
+                argpos[sa["src"]] = names.index(ia["arg"])
+                if sa["key"]:
+                    argpos[sa["key"]] = names.index(ia["key"])
+            io["argpos"] = argpos
             opts.append(io)
         ctor = irb["ctor"]
         cargs = [a for a in ctor["asgs"] if a["arg"]]
@@ -987,9 +1000,9 @@ class Planner:
             for a in so["asgs"]:
                 fk, ft = type_at(self.S, root_key, self.S[root_key], a["path"])
                 vt = ft if a["m"] == "direct" else unwrap(self.S, ft)["t"]
-                args[a["src"] - 1] = self.arg(io["args"][a["src"] - 1]["shape"], fk, vt, c["as"][a["src"] - 1])
+                args[io["argpos"][a["src"]]] = self.arg(io["args"][io["argpos"][a["src"]]]["shape"], fk, vt, c["as"][a["src"] - 1])
                 if a["key"]:
-                    args[a["key"] - 1] = self.plain(c["as"][a["key"] - 1])
+                    args[io["argpos"][a["key"]]] = self.plain(c["as"][a["key"] - 1])
             calls.append({"opt": self.opt_name(irb, io), "args": args})
         return {"pkg": self.u["pkg"], "type": self.type_name(irb), "new": new, "calls": calls, "ctor_in_seq": ctor_in_seq}
 
